@@ -160,6 +160,8 @@ def routers(ctx, P):
         elif not scs:
             mfs = [m_ for m_ in scans.find_minfilters(fn) if m_.how == "min-call"]
             lst = mfs[0].cands if len(mfs) == 1 else None
+            if lst is None:
+                lst = _minimisers_from_helper(P, P.view("JoinShortestQueue"), fn)
         rets = sorted(set(p[2].replace(" ", "") for p in paths if p[2]))
         ob.ok("JoinShortestQueue", "JoinShortestQueue.next_node returns %s" % rets)
         if lst is None or rets != sorted(["ciw.random_choice(%s)" % lst, "%s[0]" % lst]):
@@ -178,7 +180,7 @@ def routers(ctx, P):
             ctx.violation(ob, "R12.router-return", "%s.next_node" % ci.name, "new router", "unknown-router", "router class not in the checked table", loc(ci.node))
     # Probabilistic: destinations and probs are extended together with the exit entry
     ci = P.classes["Probabilistic"]
-    s = unparse(ci.methods["__init__"]).replace(" ", "")
+    s = unparse(rules.temporaries_free(ci.methods["__init__"])).replace(" ", "")
     ob.ok("Probabilistic.__init__")
     if "self.destinations=destinations+[-1]" not in s or "self.probs=probs+[1-sum(probs)]" not in s:
         ctx.violation(ob, "R12.router-return", "Probabilistic.__init__", "destinations + [-1] / probs + [1 - sum(probs)]", "tables-misaligned", "the exit entry must be appended to destinations and probs at the same position", loc(ci.methods["__init__"]))
@@ -227,6 +229,32 @@ def deterministic(ctx, P):
             ctx.violation(ob, "R10.deterministic-router", q, "%s via %s" % (kind, via), "reaches-random-source", "%s must be deterministic but reaches %s in %s" % (q, kind, via), loc(node))
 
 
+def _minimisers_from_helper(P, view, fn):
+    """the local of fn that receives the list of minimisers returned by a newly extracted helper (`cands = self.shortest_queues()`), or None"""
+    for x in ast.walk(fn):
+        if isinstance(x, ast.Assign) and len(x.targets) == 1 and isinstance(x.targets[0], ast.Name) and isinstance(x.value, ast.Call) \
+                and isinstance(x.value.func, ast.Attribute) and unparse(x.value.func.value) == "self" and x.value.func.attr not in rules.ANCHOR_METHODS:
+            r = view.resolve(x.value.func.attr)
+            if r is not None and any(m_.how == "min-call" and m_.cands == "<return>" for m_ in scans.find_minfilters(r[1])):
+                return x.targets[0].id
+    return None
+
+
+def _helper_minfilters(P, view, fn):
+    out = []
+    for x in rules.walk(P, view, fn):
+        if isinstance(x, ast.FunctionDef):
+            continue
+    seen = set()
+    for x in ast.walk(fn):
+        if isinstance(x, ast.Call) and isinstance(x.func, ast.Attribute) and unparse(x.func.value) == "self" and x.func.attr not in rules.ANCHOR_METHODS and x.func.attr not in seen:
+            seen.add(x.func.attr)
+            r = view.resolve(x.func.attr)
+            if r is not None:
+                out += [m_ for m_ in scans.find_minfilters(r[1]) if m_.how == "min-call"]
+    return out
+
+
 def jsq(ctx, P):
     ob = ctx.ob("JSQ", "JoinShortestQueue.next_node: arg-min of get_queue_size over all of self.destinations, returns a minimiser")
     ci = P.classes["JoinShortestQueue"]
@@ -234,7 +262,7 @@ def jsq(ctx, P):
     scs = scans.find_scans(fn)
     if not scs:
         # two-pass form: sizes over all destinations, their minimum, the destinations attaining it
-        mfs = [m_ for m_ in scans.find_minfilters(fn) if m_.how == "min-call"]
+        mfs = [m_ for m_ in scans.find_minfilters(fn) if m_.how == "min-call"] or _helper_minfilters(P, P.view("JoinShortestQueue"), fn)
         if len(mfs) == 1:
             mf = mfs[0]
             ob.ok("scan", "%s = min(%s for %s in %s); %s = those attaining it" % (mf.best, mf.key, mf.var, mf.coll, mf.cands))
